@@ -132,6 +132,9 @@ pub struct KState {
     pub shutdown: Option<(Pin<Box<dyn Future<Output = ()>>>, Arc<CountWaker>)>,
     /// a second waker for the shutdown future (`g.poll2`): the wake-up must go to whichever polled last
     pub cw2: Option<Arc<CountWaker>>,
+    /// `g.new n c`: a clone of the runner and `c` tokens obtained from it, alive for the whole history — they share the connection
+    /// limit with the original but NOT its shutdown ("Clone shares sema, not stop/wg")
+    pub clone_side: Option<(fastcgi_server::async_io::Runner, Vec<fastcgi_server::async_io::Token>)>,
 }
 impl KState {
     fn suffix(&self) -> String {
@@ -654,6 +657,14 @@ impl Impl {
                 let o = match r { Err(_) => "panic".to_string(), Ok(Poll::Pending) => "pending".into(), Ok(Poll::Ready(Ok(()))) => "ready".into(), Ok(Poll::Ready(Err(e))) => format!("err {}", io_kind(&e)) };
                 format!("{o}{}", self.a_suffix())
             }
+            ["a.cpoll", i] => {   // AsyncWrite::poll_close of a StreamWriter: closes nothing (the Request ends the streams), does no I/O
+                let idx: usize = i.parse().ok()?;
+                let Some(Some(wr)) = self.a.writers.get_mut(idx) else { return Some("no-writer".into()) };
+                let w = futures_util::task::noop_waker(); let mut cx = Context::from_waker(&w);
+                let r = catch(|| Pin::new(&mut *wr).poll_close(&mut cx));
+                let o = match r { Err(_) => "panic".to_string(), Ok(Poll::Pending) => "pending".into(), Ok(Poll::Ready(Ok(()))) => "ready".into(), Ok(Poll::Ready(Err(e))) => format!("err {}", io_kind(&e)) };
+                format!("{o}{}", self.a_suffix())
+            }
             ["a.drop", i] => {
                 let idx: usize = i.parse().ok()?;
                 let Some(slot) = self.a.writers.get_mut(idx) else { return Some("no-writer".into()) };
@@ -721,14 +732,19 @@ impl Impl {
                 let i: usize = t.parse().ok()?;
                 match self.k.tokens.get_mut(i) { Some(slot @ Some(_)) => { *slot = None; format!("ok{}", self.k.suffix()) } _ => "no-token".into() }
             }
-            ["g.new", n] => {
+            ["g.new", n] | ["g.new", n, _] => {
                 let n: usize = n.parse().ok()?;
-                let runner = config(8192, n.max(1)).async_runner();
+                let c: usize = a.get(2).and_then(|x| x.parse().ok()).unwrap_or(0);
+                let runner = config(8192, (n + c).max(1)).async_runner();
                 let w = futures_util::task::noop_waker(); let mut cx = Context::from_waker(&w);
                 let mut toks = vec![];
                 for _ in 0..n { let f = runner.get_token(); futures_util::pin_mut!(f); match f.poll(&mut cx) { Poll::Ready(t) => toks.push(Some(t)), Poll::Pending => return Some("get_token-pending".into()) } }
+                // a clone of the runner with `c` live tokens of its own (only when asked for: `g.new n c` with a third argument)
+                let clone_side = if a.len() == 3 { let cl = runner.clone(); let mut ct = vec![];
+                    for _ in 0..c { let f = cl.get_token(); futures_util::pin_mut!(f); match f.poll(&mut cx) { Poll::Ready(t) => ct.push(t), Poll::Pending => return Some("get_token-pending".into()) } }
+                    Some((cl, ct)) } else { None };
                 let fut: Pin<Box<dyn Future<Output = ()>>> = Box::pin(runner.shutdown());
-                self.k = KState { tokens: toks, shutdown: Some((fut, Arc::new(CountWaker(Default::default())))), cw2: Some(Arc::new(CountWaker(Default::default()))), ..Default::default() };
+                self.k = KState { tokens: toks, shutdown: Some((fut, Arc::new(CountWaker(Default::default())))), cw2: Some(Arc::new(CountWaker(Default::default()))), clone_side, ..Default::default() };
                 "ok".into()
             }
             ["g.poll"] | ["g.poll2"] => {
